@@ -278,6 +278,54 @@ Proof.
     + apply (IH r); auto. destruct (ctext z); [now inversion Hnd|exact Hnd].
 Qed.
 
+Lemma remove_first_other x l l' c : remove_first x l = Some l' -> In c l -> c <> x -> In c l'.
+Proof.
+  revert l'. induction l as [|z l IH]; intros l' H Hc Hne; [destruct Hc|]. cbn [remove_first] in H.
+  destruct (str_eqb x z) eqn:E.
+  - apply str_eqb_eq in E. subst z. inversion H; subst. destruct Hc as [->|Hc]; [congruence|exact Hc].
+  - destruct (remove_first x l) as [r|] eqn:R; [|discriminate]. inversion H; subst.
+    destruct Hc as [->|Hc]; [now left|right; now apply IH].
+Qed.
+
+(* what remove_remote leaves under the user id (after fix C18-1): exactly the remaining codes *)
+Lemma entries_rewrite_entry id vals d t : id <> t -> Forall (no SPACE) vals ->
+  entries (remove t (rewrite_entry id vals d)) id = vals.
+Proof.
+  intros Hne Hno. unfold entries. rewrite lookup_remove_neq by exact Hne. destruct vals as [|v vs]; cbn [rewrite_entry].
+  - now rewrite lookup_remove_eq.
+  - rewrite lookup_insert_eq. apply entries_of_join; [discriminate|exact Hno].
+Qed.
+Lemma lookup_rewrite_entry id vals d k : k <> id -> lookup k (rewrite_entry id vals d) = lookup k d.
+Proof. intros H. destruct vals; cbn [rewrite_entry]; [now apply lookup_remove_neq|now apply lookup_insert_neq]. Qed.
+
+(* the deletions of remove_local *)
+Fixpoint remove_all (ts : list str) (d : db) : db :=
+  match ts with [] => d | t :: r => remove_all r (remove t d) end.
+Lemma lookup_remove_sub k k' d v : lookup k' (remove k d) = Some v -> lookup k' d = Some v.
+Proof.
+  destruct (str_eqb_spec k' k) as [->|Hne]; [rewrite lookup_remove_eq; discriminate|now rewrite lookup_remove_neq].
+Qed.
+Lemma lookup_remove_all_notin ts : forall d k, ~ In k ts -> lookup k (remove_all ts d) = lookup k d.
+Proof.
+  induction ts as [|t r IH]; intros d k H; [reflexivity|]. cbn [remove_all].
+  rewrite IH by (intros X; apply H; now right). apply lookup_remove_neq. intros ->. apply H. now left.
+Qed.
+Lemma lookup_remove_all_sub ts : forall d k v, lookup k (remove_all ts d) = Some v -> lookup k d = Some v /\ ~ In k ts.
+Proof.
+  induction ts as [|t r IH]; intros d k v H; [split; [exact H|intros []]|]. cbn [remove_all] in H.
+  apply IH in H as (H & Hn). split; [now apply (lookup_remove_sub t)|].
+  intros [->|X]; [rewrite lookup_remove_eq in H; discriminate|now apply Hn].
+Qed.
+Lemma remove_local_vals_ok vals : forall d, (forall c, In c vals -> exists t, ctext c = Some t) ->
+  remove_local_vals vals d = (remove_all (texts vals) d, None).
+Proof.
+  induction vals as [|v r IH]; intros d H; [reflexivity|]. cbn [remove_local_vals].
+  destruct (H v (or_introl eq_refl)) as (t & T). unfold ctext in T.
+  destruct (decode v) as [nid|e] eqn:D; [|discriminate].
+  assert (texts (v :: r) = t :: texts r) as -> by (unfold texts; cbn [flat_map]; unfold ctext at 1; rewrite D, T; reflexivity).
+  rewrite T. cbn [remove_all]. apply IH. intros c Hc. apply H. now right.
+Qed.
+
 (* ------------------------------------------------------------------ boolean well-formedness of operations *)
 Definition bytesb (s : str) : bool := forallb (fun b => b <? 256) s.
 Definition obytesb (o : option str) : bool := match o with Some s => bytesb s | None => true end.
@@ -317,15 +365,16 @@ Qed.
 Section Store.
 Variable is_user : str -> bool.
 
-(* the two directions of the store are in step: every non-empty code recorded under a
-   user decodes to an identifier whose text is a key of the other direction bound to that
+(* the two directions of the store are in step: EVERY element of the code list recorded under
+   a user decodes to an identifier whose text is a key of the other direction bound to that
    very user; no two codes of a user carry the same text; the other direction holds
-   non-empty texts bound to users *)
+   non-empty texts bound to users, each of them recorded under that user *)
 Definition Inv (d : db) : Prop :=
-  (forall u c, is_user u = true -> In c (entries d u) -> c <> [] ->
+  (forall u c, is_user u = true -> In c (entries d u) ->
       exists t, ctext c = Some t /\ is_user t = false /\ lookup t d = Some u) /\
   (forall u, is_user u = true -> NoDup (texts (entries d u))) /\
-  (forall t u, is_user t = false -> lookup t d = Some u -> t <> [] /\ is_user u = true).
+  (forall t u, is_user t = false -> lookup t d = Some u -> t <> [] /\ is_user u = true /\
+      exists c, In c (entries d u) /\ ctext c = Some t).
 
 Lemma inv_empty : Inv [].
 Proof.
@@ -353,28 +402,33 @@ Proof.
   assert (forall u2, u2 <> u -> u2 <> t -> entries d' u2 = entries d u2) as EC.
   { intros u2 H1 H2. unfold entries. now rewrite ED. }
   assert (lookup t d' = Some u) as ET by (unfold d'; apply lookup_insert_eq).
-  assert (forall u2 c, is_user u2 = true -> In c (entries d u2) -> c <> [] ->
+  assert (forall u2 c, is_user u2 = true -> In c (entries d u2) ->
             exists t', ctext c = Some t' /\ is_user t' = false /\ lookup t' d' = Some u2) as OLD.
-  { intros u2 c Hu2 Hin Hc. destruct (I1 u2 c Hu2 Hin Hc) as (t' & T1 & T2 & T3).
+  { intros u2 c Hu2 Hin. destruct (I1 u2 c Hu2 Hin) as (t' & T1 & T2 & T3).
     exists t'. repeat split; auto. rewrite ED; auto.
     - intros E. subst t'. congruence.
     - intros E. subst t'. congruence. }
+  assert (ctext (code n) = Some t) as CT by (rewrite (ctext_code n W), Ht; destruct t; [congruence|reflexivity]).
   split; [|repeat split; auto].
   split; [|split].
-  - intros u2 c Hu2 Hin Hc. destruct (str_eqb_spec u2 u) as [->|Hne2].
+  - intros u2 c Hu2 Hin. destruct (str_eqb_spec u2 u) as [->|Hne2].
     + rewrite EB in Hin. apply in_app_or in Hin as [Hin|[<-|[]]]; [now apply OLD|].
-      exists t. repeat split; auto. rewrite (ctext_code n W), Ht. destruct t; [congruence|reflexivity].
+      exists t. repeat split; auto.
     + rewrite EC in Hin; auto. intros E; subst; congruence.
   - intros u2 Hu2. destruct (str_eqb_spec u2 u) as [->|Hne2].
     + rewrite EB, texts_app. replace (texts [code n]) with [t].
       * apply nodup_snoc; [now apply I2|]. intros Hin. apply in_texts in Hin as (c & Hc & Tc).
-        assert (c <> []) as Hcn by (intros ->; rewrite ctext_nil in Tc; discriminate).
-        destruct (I1 u c Hu Hc Hcn) as (t' & T1 & _ & T3). congruence.
-      * unfold texts. cbn [flat_map]. rewrite (ctext_code n W), Ht. destruct t; [congruence|reflexivity].
+        destruct (I1 u c Hu Hc) as (t' & T1 & _ & T3). congruence.
+      * unfold texts. cbn [flat_map]. now rewrite CT.
     + rewrite EC; auto. intros E; subst; congruence.
   - intros t2 u2 Ht2 Hl. destruct (str_eqb_spec t2 t) as [->|Hne2].
-    + rewrite ET in Hl. inversion Hl; subst. auto.
-    + rewrite ED in Hl; auto. intros E; subst; congruence.
+    + rewrite ET in Hl. inversion Hl; subst u2. split; [exact Hne|]. split; [exact Hu|].
+      exists (code n). split; [|exact CT]. rewrite EB. apply in_or_app. right. now left.
+    + rewrite ED in Hl; auto; [|intros E; subst; congruence].
+      destruct (I3 t2 u2 Ht2 Hl) as (A & B & c & Hc & Tc). split; [exact A|]. split; [exact B|].
+      exists c. split; [|exact Tc].
+      destruct (str_eqb_spec u2 u) as [->|Hne3]; [rewrite EB; apply in_or_app; now left|].
+      rewrite EC; auto. intros E; subst; congruence.
 Qed.
 
 Lemma entries_of_join_sub vals c : Forall (no SPACE) vals -> In c (entries_of (join_with SPACE vals)) -> c <> [] -> In c vals.
@@ -393,62 +447,98 @@ Lemma remove_preserves d n d' :
   Inv d -> wfb n -> (forall t, n_text n = Some t -> is_user t = false) -> do_remove_remote d n = Ok d' ->
   Inv d' /\ exists t id, n_text n = Some t /\ lookup t d = Some id /\ is_user id = true /\ t <> [] /\ lookup t d' = None.
 Proof.
-  intros (I1 & I2 & I3) W Hnt H. unfold do_remove_remote in H.
+  intros (I1 & I2 & I3) W Hnt H. unfold do_remove_remote, remove_remote_with in H.
   destruct (n_text n) as [t|] eqn:Ht; [|discriminate]. specialize (Hnt t eq_refl).
   destruct (lookup t d) as [id|] eqn:L; [|discriminate].
-  destruct (I3 t id Hnt L) as (Hne & Hid).
+  destruct (I3 t id Hnt L) as (Hne & Hid & c0 & Hc0 & Tc0).
   pose proof (user_neq id t Hid Hnt) as Hidt.
   assert (ctext (code n) = Some t) as CT by (rewrite (ctext_code n W), Ht; destruct t; [congruence|reflexivity]).
   destruct (lookup id d) as [e|] eqn:Le.
-  - destruct (remove_first (code n) (entries_of e)) as [vals|] eqn:R; [|discriminate]. inversion H; subst d'. clear H.
-    set (d1 := insert id (join_with SPACE vals) d).
-    assert (entries d id = entries_of e) as E0 by (unfold entries; now rewrite Le).
-    assert (Forall (no SPACE) vals) as Hno.
-    { apply Forall_forall. intros y Hy. pose proof (entries_of_no e) as F. rewrite Forall_forall in F.
-      apply F. now apply (remove_first_in (code n) (entries_of e) vals). }
-    assert (entries (remove t d1) id = entries_of (join_with SPACE vals)) as E1.
-    { unfold entries. rewrite lookup_remove_neq by exact Hidt. unfold d1. now rewrite lookup_insert_eq. }
-    assert (forall k, k <> t -> k <> id -> lookup k (remove t d1) = lookup k d) as ED.
-    { intros k H1 H2. rewrite lookup_remove_neq by exact H1. unfold d1. now rewrite lookup_insert_neq. }
-    split; [|exists t, id; repeat split; auto; apply lookup_remove_eq].
-    split; [|split].
-    + intros u2 c Hu2 Hin Hc. destruct (str_eqb_spec u2 id) as [->|Hne2].
-      * rewrite E1 in Hin. apply entries_of_join_sub in Hin; auto.
-        assert (In c (entries d id)) as Hold by (rewrite E0; now apply (remove_first_in (code n) _ vals)).
-        destruct (I1 id c Hid Hold Hc) as (t' & T1 & T2 & T3). exists t'. repeat split; auto.
-        rewrite ED; auto.
-        -- intros ->. apply (remove_first_text_gone (code n) (entries_of e) vals t c); auto.
-           rewrite <- E0. now apply I2.
-        -- intros ->. congruence.
-      * assert (entries (remove t d1) u2 = entries d u2) as EC.
-        { unfold entries. rewrite ED; auto. intros ->. congruence. }
-        rewrite EC in Hin. destruct (I1 u2 c Hu2 Hin Hc) as (t' & T1 & T2 & T3). exists t'. repeat split; auto.
-        rewrite ED; auto.
-        -- intros ->. rewrite L in T3. inversion T3. congruence.
-        -- intros ->. congruence.
-    + intros u2 Hu2. destruct (str_eqb_spec u2 id) as [->|Hne2].
-      * rewrite E1, texts_entries_of_join by exact Hno.
-        apply (remove_first_nodup (code n) (entries_of e)); auto. rewrite <- E0. now apply I2.
-      * assert (entries (remove t d1) u2 = entries d u2) as EC.
-        { unfold entries. rewrite ED; auto. intros ->. congruence. }
-        rewrite EC. now apply I2.
-    + intros t2 u2 Ht2 Hl. destruct (str_eqb_spec t2 t) as [->|Hne2].
-      * rewrite lookup_remove_eq in Hl. discriminate.
-      * rewrite ED in Hl; auto. intros ->. congruence.
-  - inversion H; subst d'. clear H.
-    assert (forall k, k <> t -> lookup k (remove t d) = lookup k d) as ED by (intros; now apply lookup_remove_neq).
-    assert (forall u2, is_user u2 = true -> entries (remove t d) u2 = entries d u2) as EC.
-    { intros u2 Hu2. unfold entries. rewrite ED; auto. intros ->. congruence. }
-    split; [|exists t, id; repeat split; auto; apply lookup_remove_eq].
-    split; [|split].
-    + intros u2 c Hu2 Hin Hc. rewrite EC in Hin by exact Hu2.
-      destruct (I1 u2 c Hu2 Hin Hc) as (t' & T1 & T2 & T3). exists t'. repeat split; auto.
-      rewrite ED; auto. intros ->. rewrite L in T3. inversion T3; subst.
-      unfold entries in Hin. rewrite Le in Hin. destruct Hin.
-    + intros u2 Hu2. rewrite EC by exact Hu2. now apply I2.
-    + intros t2 u2 Ht2 Hl. destruct (str_eqb_spec t2 t) as [->|Hne2].
-      * rewrite lookup_remove_eq in Hl. discriminate.
-      * rewrite ED in Hl; auto.
+  2:{ unfold entries in Hc0. rewrite Le in Hc0. destruct Hc0. }
+  destruct (remove_first (code n) (entries_of e)) as [vals|] eqn:R; [|discriminate]. inversion H; subst d'. clear H.
+  set (d1 := rewrite_entry id vals d).
+  assert (entries d id = entries_of e) as E0 by (unfold entries; now rewrite Le).
+  assert (Forall (no SPACE) vals) as Hno.
+  { apply Forall_forall. intros y Hy. pose proof (entries_of_no e) as F. rewrite Forall_forall in F.
+    apply F. now apply (remove_first_in (code n) (entries_of e) vals). }
+  assert (entries (remove t d1) id = vals) as E1 by (unfold d1; now apply entries_rewrite_entry).
+  assert (forall k, k <> t -> k <> id -> lookup k (remove t d1) = lookup k d) as ED.
+  { intros k H1 H2. rewrite lookup_remove_neq by exact H1. unfold d1. now apply lookup_rewrite_entry. }
+  assert (forall u2, is_user u2 = true -> u2 <> id -> entries (remove t d1) u2 = entries d u2) as EC.
+  { intros u2 Hu2 Hn2. unfold entries. rewrite ED; auto. intros ->. congruence. }
+  split; [|exists t, id; repeat split; auto; apply lookup_remove_eq].
+  split; [|split].
+  - intros u2 c Hu2 Hin. destruct (str_eqb_spec u2 id) as [->|Hne2].
+    + rewrite E1 in Hin.
+      assert (In c (entries d id)) as Hold by (rewrite E0; now apply (remove_first_in (code n) _ vals)).
+      destruct (I1 id c Hid Hold) as (t' & T1 & T2 & T3). exists t'. repeat split; auto.
+      rewrite ED; auto.
+      * intros ->. apply (remove_first_text_gone (code n) (entries_of e) vals t c); auto.
+        rewrite <- E0. now apply I2.
+      * intros ->. congruence.
+    + rewrite EC in Hin by auto. destruct (I1 u2 c Hu2 Hin) as (t' & T1 & T2 & T3). exists t'. repeat split; auto.
+      rewrite ED; auto.
+      * intros ->. rewrite L in T3. inversion T3. congruence.
+      * intros ->. congruence.
+  - intros u2 Hu2. destruct (str_eqb_spec u2 id) as [->|Hne2].
+    + rewrite E1. apply (remove_first_nodup (code n) (entries_of e)); auto. rewrite <- E0. now apply I2.
+    + rewrite EC by auto. now apply I2.
+  - intros t2 u2 Ht2 Hl. destruct (str_eqb_spec t2 t) as [->|Hne2].
+    + rewrite lookup_remove_eq in Hl. discriminate.
+    + rewrite ED in Hl; auto; [|intros ->; congruence].
+      destruct (I3 t2 u2 Ht2 Hl) as (A & B & c & Hc & Tc). split; [exact A|]. split; [exact B|].
+      exists c. split; [|exact Tc].
+      destruct (str_eqb_spec u2 id) as [->|Hne3].
+      * rewrite E1. apply (remove_first_other (code n) (entries_of e)); auto; [now rewrite <- E0|].
+        intros ->. congruence.
+      * now rewrite EC.
+Qed.
+
+(* remove_local(u) for a user id: withdraws exactly the identifiers of u *)
+Lemma remove_local_full d u :
+  Inv d -> is_user u = true ->
+  let d' := fst (do_remove_local d u) in
+  snd (do_remove_local d u) = ONone /\ Inv d' /\ lookup u d' = None /\
+  (forall t, is_user t = false -> lookup t d' <> Some u) /\
+  (forall u2, is_user u2 = true -> u2 <> u -> entries d' u2 = entries d u2) /\
+  (forall t u2, is_user t = false -> u2 <> u -> lookup t d = Some u2 -> lookup t d' = Some u2) /\
+  (forall k v, lookup k d' = Some v -> lookup k d = Some v).
+Proof.
+  intros I Hu. pose proof I as (I1 & I2 & I3). unfold do_remove_local. destruct (lookup u d) as [e|] eqn:Le.
+  2:{ cbn [fst snd]. split; [reflexivity|]. split; [exact I|]. split; [exact Le|]. split; [|auto].
+      intros t Ht L. destruct (I3 t u Ht L) as (_ & _ & c & Hc & _). unfold entries in Hc. rewrite Le in Hc. destruct Hc. }
+  assert (entries d u = entries_of e) as E0 by (unfold entries; now rewrite Le).
+  rewrite remove_local_vals_ok.
+  2:{ intros c Hc. rewrite <- E0 in Hc. destruct (I1 u c Hu Hc) as (t & T & _). now exists t. }
+  cbn [fst snd]. set (ts := texts (entries_of e)).
+  assert (forall t, In t ts -> is_user t = false /\ lookup t d = Some u) as Hts.
+  { intros t Hin. apply in_texts in Hin as (c & Hc & Tc). rewrite <- E0 in Hc.
+    destruct (I1 u c Hu Hc) as (t' & T1 & T2 & T3). assert (t' = t) by congruence. subst t'. auto. }
+  assert (forall k, k <> u -> ~ In k ts -> lookup k (remove u (remove_all ts d)) = lookup k d) as LK.
+  { intros k H1 H2. rewrite lookup_remove_neq by exact H1. now apply lookup_remove_all_notin. }
+  assert (forall k v, lookup k (remove u (remove_all ts d)) = Some v -> lookup k d = Some v /\ ~ In k ts) as LS.
+  { intros k v H. apply lookup_remove_sub in H. now apply lookup_remove_all_sub in H. }
+  assert (forall u2, is_user u2 = true -> u2 <> u -> entries (remove u (remove_all ts d)) u2 = entries d u2) as EC.
+  { intros u2 Hu2 Hn2. unfold entries. rewrite LK; auto. intros Hin. destruct (Hts u2 Hin). congruence. }
+  assert (entries (remove u (remove_all ts d)) u = []) as EU by (unfold entries; now rewrite lookup_remove_eq).
+  assert (forall t u2, is_user t = false -> u2 <> u -> lookup t d = Some u2 -> lookup t (remove u (remove_all ts d)) = Some u2) as KEEP.
+  { intros t u2 Ht Hn2 L. rewrite LK; auto; [intros ->; congruence|].
+    intros Hin. destruct (Hts t Hin) as (_ & L2). congruence. }
+  assert (forall t, is_user t = false -> lookup t (remove u (remove_all ts d)) <> Some u) as GONE.
+  { intros t Ht L. destruct (LS t u L) as (L0 & Hn). destruct (I3 t u Ht L0) as (_ & _ & c & Hc & Tc).
+    apply Hn. unfold ts. rewrite <- E0. now apply (texts_in c t). }
+  split; [reflexivity|]. split; [|split; [apply lookup_remove_eq|]; split; [exact GONE|]; split; [exact EC|]; split; [exact KEEP|]].
+  2:{ intros k v H. now destruct (LS k v H). }
+  split; [|split].
+  - intros u2 c Hu2 Hin. destruct (str_eqb_spec u2 u) as [->|Hne2]; [rewrite EU in Hin; destruct Hin|].
+    rewrite EC in Hin by auto. destruct (I1 u2 c Hu2 Hin) as (t' & T1 & T2 & T3). exists t'. repeat split; auto.
+  - intros u2 Hu2. destruct (str_eqb_spec u2 u) as [->|Hne2]; [rewrite EU; constructor|].
+    rewrite EC by auto. now apply I2.
+  - intros t u0 Ht L. destruct (LS t u0 L) as (L0 & Hn). destruct (I3 t u0 Ht L0) as (A & B & c & Hc & Tc).
+    split; [exact A|]. split; [exact B|]. exists c. split; [|exact Tc].
+    destruct (str_eqb_spec u0 u) as [->|Hne0].
+    + exfalso. now apply (GONE t Ht).
+    + now rewrite EC.
 Qed.
 
 (* ---- which operations the store theorems speak about (decidable) ---- *)
@@ -465,7 +555,7 @@ Definition op_wfb (c : cfg) (o : op) : bool :=
   match o with
   | Store _ _ => false                                   (* raw store: see raw_store_refuted *)
   | RemoveRemote n => nid_ok n
-  | RemoveLocal _ => true
+  | RemoveLocal u => is_user u
   | GetNameid u f sp nq cands => get_ok c u f sp nq cands
   | Transient u sp nq cands => get_ok c u NAMEID_FORMAT_TRANSIENT sp nq cands
   | Persistent u sp nq cands => get_ok c u NAMEID_FORMAT_PERSISTENT sp nq cands
@@ -572,6 +662,7 @@ Proof.
     unfold nid_ok in Hw. apply andb_true_iff in Hw as (W & Ht).
     apply (remove_preserves d n d' I (wfbb_spec n W)); auto.
     intros t E. rewrite E in Ht. now apply negb_true_iff.
+  - now destruct (remove_local_full d u I Hw) as (_ & I' & _).
   - now apply get_nameid_preserves.
   - now apply get_nameid_preserves.
   - unfold persistent_nameid. destruct (match_local_id d u sp nq) as [[n|]|e]; try exact I.
@@ -589,7 +680,7 @@ Proof.
     destruct I as (_ & _ & I3). unfold find_local_id in F. destruct (n_text n) as [t|] eqn:Et; [|discriminate].
     unfold nid_ok in Hn. rewrite Et in Hn. apply andb_true_iff in Hn as (_ & Hn). apply negb_true_iff in Hn.
     now destruct (I3 t (x :: id) Hn F).
-  - unfold manage. apply andb_true_iff in Hw as (Hn & Ha).
+  - unfold manage, manage_with. apply andb_true_iff in Hw as (Hn & Ha).
     assert (forall v, obytesb v = true ->
        Inv (fst (match do_remove_remote d n with
                  | Err e => (d, OErr e)
@@ -619,12 +710,20 @@ Proof.
 Qed.
 
 (* what the invariant says in terms of the public lookups *)
-Lemma inv_resolves d u c0 : Inv d -> is_user u = true -> In c0 (entries d u) -> c0 <> [] ->
-  exists n t, decode c0 = Ok n /\ n_text n = Some t /\ is_user t = false /\ find_local_id d n = Some u.
+Lemma inv_resolves d u c0 : Inv d -> is_user u = true -> In c0 (entries d u) ->
+  exists n t, decode c0 = Ok n /\ n_text n = Some t /\ t <> [] /\ is_user t = false /\ find_local_id d n = Some u.
 Proof.
-  intros (I1 & _ & _) Hu Hin Hc. destruct (I1 u c0 Hu Hin Hc) as (t & T1 & T2 & T3).
+  intros (I1 & _ & I3) Hu Hin. destruct (I1 u c0 Hu Hin) as (t & T1 & T2 & T3).
   unfold ctext in T1. destruct (decode c0) as [n|] eqn:D; [|discriminate].
-  exists n, t. repeat split; auto. unfold find_local_id. now rewrite T1.
+  exists n, t. repeat split; auto; [now destruct (I3 t u T2 T3)|]. unfold find_local_id. now rewrite T1.
+Qed.
+
+(* ... and the converse: whatever resolves to a user is recorded under that user *)
+Lemma inv_recorded d t u : Inv d -> is_user t = false -> lookup t d = Some u ->
+  is_user u = true /\ exists c0 n, In c0 (entries d u) /\ decode c0 = Ok n /\ n_text n = Some t.
+Proof.
+  intros (_ & _ & I3) Ht L. destruct (I3 t u Ht L) as (_ & Hu & c0 & Hc & Tc). split; [exact Hu|].
+  unfold ctext in Tc. destruct (decode c0) as [n|] eqn:D; [|discriminate]. now exists c0, n.
 Qed.
 
 (* two recorded identifiers with the same text are the same record of the same user *)
@@ -632,9 +731,7 @@ Lemma inv_no_sharing d u1 u2 c1 c2 t : Inv d -> is_user u1 = true -> is_user u2 
   In c1 (entries d u1) -> In c2 (entries d u2) -> ctext c1 = Some t -> ctext c2 = Some t -> u1 = u2 /\ c1 = c2.
 Proof.
   intros (I1 & I2 & _) H1 H2 In1 In2 T1 T2.
-  assert (c1 <> []) as N1 by (intros ->; rewrite ctext_nil in T1; discriminate).
-  assert (c2 <> []) as N2 by (intros ->; rewrite ctext_nil in T2; discriminate).
-  destruct (I1 u1 c1 H1 In1 N1) as (t1 & A1 & _ & L1). destruct (I1 u2 c2 H2 In2 N2) as (t2 & A2 & _ & L2).
+  destruct (I1 u1 c1 H1 In1) as (t1 & A1 & _ & L1). destruct (I1 u2 c2 H2 In2) as (t2 & A2 & _ & L2).
   assert (t1 = t) by congruence. assert (t2 = t) by congruence. subst t1 t2.
   assert (u1 = u2) by congruence. subst u2. split; [reflexivity|].
   apply (nodup_texts_same (entries d u1) c1 c2 t); auto.
@@ -642,7 +739,7 @@ Qed.
 
 (* ---- append-only operations: everything that issues or looks up, nothing that withdraws ---- *)
 Definition issue_only (o : op) : bool :=
-  match o with Store _ _ | RemoveRemote _ | Manage _ _ => false | _ => true end.
+  match o with Store _ _ | RemoveRemote _ | RemoveLocal _ | Manage _ _ => false | _ => true end.
 
 Lemma step_extends c d o : Inv d -> op_wfb c o = true -> issue_only o = true ->
   forall u0, is_user u0 = true -> exists more, entries (fst (step c d o)) u0 = entries d u0 ++ more.
@@ -669,6 +766,46 @@ Proof.
     now destruct (I3 t (x :: id) Hn F).
   - unfold of_res. destruct (find_nameid d u f); exact Same.
   - unfold of_res. destruct (match_local_id d u sp nq); exact Same.
+Qed.
+
+Lemma map_vals_in l pfmt psp n : map_vals l pfmt psp = Ok (Some n) -> exists c, In c l /\ decode c = Ok n.
+Proof.
+  induction l as [|v l IH]; intros H; [discriminate|]. cbn [map_vals] in H.
+  destruct (decode v) as [nid|e] eqn:D; [|discriminate].
+  destruct (opt_eqb (n_fmt nid) pfmt && opt_eqb (n_spnq nid) psp).
+  - inversion H; subst nid. exists v. split; [now left|exact D].
+  - destruct (IH H) as (c & Hc & R). exists c. split; [now right|exact R].
+Qed.
+
+(* whatever a mapping request returns (an old identifier or a new one) has a non-empty text
+   that resolves to the principal the request was about *)
+Theorem map_req_resolves c d n pfmt psp allow cands d' m :
+  Inv d -> op_wfb c (MapReq n pfmt psp allow cands) = true ->
+  map_req c d n pfmt psp allow cands = (d', ONid m) ->
+  exists u t, find_local_id d n = Some u /\ is_user u = true /\ n_text m = Some t /\ t <> [] /\ find_local_id d' m = Some u.
+Proof.
+  intros I Hw H. cbn [op_wfb] in Hw. rewrite !andb_true_iff in Hw. destruct Hw as ((Hn & Hc) & Hargs).
+  unfold map_req in H. destruct (find_local_id d n) as [[|x id]|] eqn:F; try (inversion H; fail).
+  assert (is_user (x :: id) = true) as Hid.
+  { destruct I as (_ & _ & I3). unfold find_local_id in F. destruct (n_text n) as [t|] eqn:Et; [|discriminate].
+    unfold nid_ok in Hn. rewrite Et in Hn. apply andb_true_iff in Hn as (_ & Hn). apply negb_true_iff in Hn.
+    now destruct (I3 t (x :: id) Hn F) as (_ & R & _). }
+  destruct (lookup (x :: id) d) as [e|] eqn:Le; [|inversion H].
+  destruct (map_vals (entries_of e) pfmt psp) as [[nid|]|er] eqn:MV; [| |inversion H].
+  - inversion H; subst d' m. apply map_vals_in in MV as (c0 & Hc0 & D).
+    assert (In c0 (entries d (x :: id))) as Hin by (unfold entries; now rewrite Le).
+    destruct (inv_resolves d (x :: id) c0 I Hid Hin) as (n0 & t & D0 & T & Tne & _ & FL).
+    rewrite D in D0. inversion D0; subst n0. exists (x :: id), t. auto.
+  - destruct (opt_eqb allow (Some (s2l "false"))); [inversion H|].
+    unfold construct_nameid in H.
+    destruct (construct_args c None None (Some (pfmt, psp)) None) as [[[f sp'] nq']|]; [|inversion H].
+    assert (get_ok c (x :: id) f sp' nq' cands = true) as Hok.
+    { unfold get_ok. rewrite !andb_true_iff in *. destruct Hargs as ((Hf & Hsp) & Hnq). repeat split; auto. }
+    destruct (get_nameid_full c d (x :: id) f sp' nq' cands I Hok) as (_ & _ & G).
+    rewrite H in G. cbn [fst snd] in G. destruct (G m eq_refl) as (_ & _ & FL & t & Tt & Tc & _).
+    exists (x :: id), t. repeat split; auto. intros ->.
+    rewrite forallb_forall in Hc. specialize (Hc [] Tc). unfold cand_ok in Hc. cbn in Hc.
+    rewrite andb_false_r in Hc. discriminate.
 Qed.
 End Store.
 
@@ -710,6 +847,14 @@ Proof.
   unfold qual_match. intros Ha. destruct (truthy stored).
   - destruct stored as [x|], arg as [y|]; cbn; try discriminate. intros E. apply str_eqb_eq in E. now subst.
   - rewrite Ha. discriminate.
+Qed.
+
+Lemma qual_match_tr_eq stored arg : qual_match stored arg = true -> tr arg = tr stored.
+Proof.
+  unfold qual_match, tr. destruct stored as [[|a x]|]; cbn [truthy].
+  - intros Ta. apply negb_true_iff in Ta. now rewrite Ta.
+  - destruct arg as [y|]; cbn [opt_eqb]; [|discriminate]. intros E. apply str_eqb_eq in E. now subst.
+  - intros Ta. apply negb_true_iff in Ta. now rewrite Ta.
 Qed.
 
 Lemma persistent_bytes : Forall byte NAMEID_FORMAT_PERSISTENT.
@@ -768,28 +913,26 @@ Proof.
   rewrite match_local_id_entries in *. rewrite E. now apply match_vals_app_some.
 Qed.
 
-(* identifiers matched for different users or different (non-empty) SP qualifiers have different texts *)
+(* identifiers matched for different users or different qualifiers (as Python reads them: None and
+   the empty string both mean no qualifier) have different texts, each resolving to its own user *)
 Theorem persistent_distinct d u1 u2 sp1 sp2 nq1 nq2 n1 n2 :
-  Inv is_user d -> is_user u1 = true -> is_user u2 = true -> truthy sp1 = true -> truthy sp2 = true ->
+  Inv is_user d -> is_user u1 = true -> is_user u2 = true ->
   match_local_id d u1 sp1 nq1 = Ok (Some n1) -> match_local_id d u2 sp2 nq2 = Ok (Some n2) ->
-  u1 <> u2 \/ sp1 <> sp2 ->
+  u1 <> u2 \/ tr sp1 <> tr sp2 \/ tr nq1 <> tr nq2 ->
   n_text n1 <> n_text n2 /\ find_local_id d n1 = Some u1 /\ find_local_id d n2 = Some u2.
 Proof.
-  intros I H1 H2 T1 T2 M1 M2 Hdiff. rewrite match_local_id_entries in M1, M2.
-  apply match_vals_in in M1 as (c1 & In1 & D1 & Q1 & _). apply match_vals_in in M2 as (c2 & In2 & D2 & Q2 & _).
-  apply (qual_match_truthy _ _ T1) in Q1. apply (qual_match_truthy _ _ T2) in Q2.
-  assert (c1 <> []) as N1.
-  { intros ->. inversion D1; subst n1. cbn in Q1. subst sp1. discriminate. }
-  assert (c2 <> []) as N2.
-  { intros ->. inversion D2; subst n2. cbn in Q2. subst sp2. discriminate. }
+  intros I H1 H2 M1 M2 Hdiff. rewrite match_local_id_entries in M1, M2.
+  apply match_vals_in in M1 as (c1 & In1 & D1 & Q1 & R1). apply match_vals_in in M2 as (c2 & In2 & D2 & Q2 & R2).
   pose proof I as (I1 & _ & _).
-  destruct (I1 u1 c1 H1 In1 N1) as (t1 & A1 & _ & L1). destruct (I1 u2 c2 H2 In2 N2) as (t2 & A2 & _ & L2).
+  destruct (I1 u1 c1 H1 In1) as (t1 & A1 & _ & L1). destruct (I1 u2 c2 H2 In2) as (t2 & A2 & _ & L2).
   assert (n_text n1 = Some t1) as E1 by (unfold ctext in A1; now rewrite D1 in A1).
   assert (n_text n2 = Some t2) as E2 by (unfold ctext in A2; now rewrite D2 in A2).
   split; [|unfold find_local_id; rewrite E1, E2; auto].
   intros E. rewrite E1, E2 in E. inversion E; subst t2.
   destruct (inv_no_sharing is_user d u1 u2 c1 c2 t1 I H1 H2 In1 In2 A1 A2) as (-> & ->).
-  rewrite D1 in D2. inversion D2; subst n2. destruct Hdiff as [X|X]; [now apply X|apply X; congruence].
+  rewrite D1 in D2. inversion D2; subst n2.
+  apply qual_match_tr_eq in Q1, Q2, R1, R2.
+  destruct Hdiff as [X|[X|X]]; [now apply X|apply X; congruence|apply X; congruence].
 Qed.
 End Store2.
 
@@ -806,19 +949,16 @@ Qed.
 Section Store3.
 Variable is_user : str -> bool.
 
-(* with a non-empty SP qualifier, whatever persistent_nameid / match_local_id finds has a text
+(* whatever persistent_nameid / match_local_id finds, for ANY qualifiers, has a non-empty text
    and that text resolves to the user asked for *)
 Theorem persistent_resolves d u sp nq n :
-  Inv is_user d -> is_user u = true -> truthy sp = true -> match_local_id d u sp nq = Ok (Some n) ->
+  Inv is_user d -> is_user u = true -> match_local_id d u sp nq = Ok (Some n) ->
   exists t, n_text n = Some t /\ t <> [] /\ find_local_id d n = Some u.
 Proof.
-  intros I Hu T M. rewrite match_local_id_entries in M.
-  apply match_vals_in in M as (c1 & In1 & D1 & Q1 & _). apply (qual_match_truthy _ _ T) in Q1.
-  assert (c1 <> []) as N1.
-  { intros ->. inversion D1; subst n. cbn in Q1. subst sp. discriminate. }
-  pose proof I as (I1 & _ & I3). destruct (I1 u c1 Hu In1 N1) as (t1 & A1 & U1 & L1).
-  assert (n_text n = Some t1) as E1 by (unfold ctext in A1; now rewrite D1 in A1).
-  exists t1. split; [exact E1|]. split; [now destruct (I3 t1 u U1 L1)|]. unfold find_local_id. now rewrite E1.
+  intros I Hu M. rewrite match_local_id_entries in M.
+  apply match_vals_in in M as (c1 & In1 & D1 & _).
+  destruct (inv_resolves is_user d u c1 I Hu In1) as (n0 & t & D0 & T & Tne & _ & FL).
+  rewrite D1 in D0. inversion D0; subst n0. now exists t.
 Qed.
 
 Theorem reachable_inv c ops : forallb (op_wfb is_user c) ops = true -> Inv is_user (run c [] ops).
